@@ -463,6 +463,39 @@ structure NewRIB where
   Afts : NewAfts
   deriving DecidableEq, Repr, Inhabited
 
+/-! ## the reconciler (rib/reconciler/reconcile.go `diff`) -/
+
+/-- an entry of one table of a RIB's contents: its key (a string for prefixes, a number for
+labels, groups and next-hops) and the identity of its payload (`reflect.DeepEqual` compares it) -/
+structure ReconEnt where
+  KeyS : String := ""
+  KeyN : Nat := 0
+  Body : Nat := 0
+  deriving DecidableEq, Repr, Inhabited
+
+structure ReconAfts where
+  Ipv4Entry : List ReconEnt := []
+  Ipv6Entry : List ReconEnt := []
+  LabelEntry : List ReconEnt := []
+  NextHopGroup : List ReconEnt := []
+  NextHop : List ReconEnt := []
+  deriving DecidableEq, Repr, Inhabited
+
+/-- one network instance of `RIBContents()` (an `*aft.RIB`; `GetAfts()` of a fresh one is empty) -/
+structure ReconNI where
+  Afts : ReconAfts := {}
+  deriving DecidableEq, Repr, Inhabited
+
+/-- an operation `diff` emits: built by `v4Operation` … from (method, instance, id, entry) -/
+structure ReconOp where
+  Id : Nat
+  NetworkInstance : String
+  Op : Nat
+  /-- table: 4, 6, 1 MPLS, 2 group, 3 next-hop -/
+  Kind : Nat
+  Entry : Option ReconEnt
+  deriving DecidableEq, Repr, Inhabited
+
 /-- `rib.OpResult` as far as it is compared: the operation's id -/
 structure RibOpResult where
   ID : Nat
